@@ -191,6 +191,34 @@ func TestReplay(t *testing.T) {
 					probs = append(probs, "xml-unregistered-value-not-in-hex:"+xml)
 				}
 			}
+		case "name-in-scope", "name-out-of-scope":
+			// a value name denotes a value only in the enumeration it is registered in (decimal and 0x-prefixed numbers are the
+			// only other forms): the programmatic lookup and the XML / JSON readers agree with the registry
+			n, err := ttlv.EnumByName(c.Tag, c.VName)
+			var ox, oj ttlv.Value
+			errX := ttlv.UnmarshalXML([]byte(fmt.Sprintf(`<%s type="Enumeration" value="%s"/>`, c.Name, c.VName)), &ox)
+			errJ := ttlv.UnmarshalJSON([]byte(fmt.Sprintf(`{"tag":"%s","type":"Enumeration","value":"%s"}`, c.Name, c.VName)), &oj)
+			if c.Kind == "name-in-scope" {
+				if err != nil || int(n) != c.Value {
+					probs = append(probs, fmt.Sprintf("EnumByName=%d,%v", n, err))
+				}
+				if errX != nil || fmt.Sprint(ox.Value) != fmt.Sprint(c.Value) {
+					probs = append(probs, fmt.Sprintf("xml-value-name-read-as-%v-err-%v", ox.Value, errX))
+				}
+				if errJ != nil || fmt.Sprint(oj.Value) != fmt.Sprint(c.Value) {
+					probs = append(probs, fmt.Sprintf("json-value-name-read-as-%v-err-%v", oj.Value, errJ))
+				}
+			} else {
+				if err == nil {
+					probs = append(probs, fmt.Sprintf("EnumByName-resolves-a-name-of-another-scope-to-%d", n))
+				}
+				if errX == nil {
+					probs = append(probs, fmt.Sprintf("xml-reader-resolves-a-name-of-another-scope-to-%v", ox.Value))
+				}
+				if errJ == nil {
+					probs = append(probs, fmt.Sprintf("json-reader-resolves-a-name-of-another-scope-to-%v", oj.Value))
+				}
+			}
 		case "mask":
 			if n, err := ttlv.BitmaskByStr(c.Tag, c.VName); err != nil || int(n) != c.Value {
 				probs = append(probs, fmt.Sprintf("BitmaskByStr=%d,%v", n, err))
